@@ -402,8 +402,9 @@ Qed.
 
 Lemma inv1_init cfg p : inv1 cfg p (init p).
 Proof.
-  split; cbn; auto.
-  - discriminate.
+  split; cbn.
+  - auto.
+  - intros d n v H; discriminate.
   - intros; exact I.
   - intros ? ? ? ? [].
 Qed.
@@ -488,7 +489,7 @@ Record inv2 (cfg : config) (p : prog) (st : state) : Prop := {
 
 Lemma finish_load_evs t l n e t' o r :
   In (EvRes t' o r) (snd (finish_load t l n e)) -> exists x, r = RFound x.
-Proof. unfold finish_load, fin. destruct e; cbn; intros [H|[]]; inversion H; eauto. Qed.
+Proof. unfold finish_load, fin. destruct e; cbn; [intros [] | intros [H|[]]; inversion H; eauto ..]. Qed.
 
 Lemma next_level_evs t l n e rest t' o r :
   In (EvRes t' o r) (snd (next_level t l n e rest)) -> exists x, r = RFound x.
@@ -521,6 +522,16 @@ Qed.
 Lemma found_ok p o x : res_ok p o (RFound x).
 Proof. split; [discriminate|]. discriminate. Qed.
 
+Lemma pair_fst_snd {A B} (x : A * B) a b : x = (a, b) -> a = fst x /\ b = snd x.
+Proof. intros ->; auto. Qed.
+
+Ltac use_outcome lpc levs :=
+  match goal with H : ?x = (?p', ?evs) |- _ =>
+    destruct (pair_fst_snd _ _ _ H) as [-> ->]; clear H;
+    split; [intros; apply lpc
+           | let Hin := fresh "Hin" in intros ? ? ? Hin; apply levs in Hin; destruct Hin as [? ->]; apply found_ok] end.
+
+
 Lemma inv2_init cfg p : inv2 cfg p (init p).
 Proof. split; cbn; [discriminate | intros ? ? ? []]. Qed.
 
@@ -536,39 +547,28 @@ Proof.
       assert (Hop : In o (nth t p [])) by (apply Htodo; rewrite Ht; now left).
       destruct o; cbn [start] in Hs.
       + destruct (chain cfg l) as [|d0 rest] eqn:Hc; [now apply chain_nonempty in Hc|]. inv_pair Hs.
-        match goal with H : after_read _ _ _ _ _ _ _ = (p', evs) |- _ =>
-          split; [intros; replace p' with (fst (after_read cfg t l n d0 (get sh' d0 n) rest)) by (now rewrite H);
-                  apply after_read_pc
-                 | intros t' o r Hin; replace evs with (snd (after_read cfg t l n d0 (get sh' d0 n) rest)) in Hin by (now rewrite H);
-                   apply after_read_evs in Hin; destruct Hin as [x ->]; apply found_ok] end.
+        use_outcome after_read_pc after_read_evs.
       + destruct (set_entry (st_sh st) l n (Some v)) as [sh1 [[r1|]|]] eqn:Hse; inv_pair Hs.
         * split; [discriminate|]. intros t' o r [H|[]]; inversion H; subst. split; discriminate.
         * apply set_entry_some_result in Hse. destruct Hse as [w Hw]; discriminate.
         * split; [discriminate|]. intros t' o r [H|[]]; inversion H; subst. split; [discriminate|]. intros _.
           apply set_entry_conflict in Hse. destruct Hse as (_ & ov & Hov & Hveq).
           exists l, n, v; split; auto.
-          destruct (Hbind _ _ _ Hov) as [Hf | [t' Hd]].
+          destruct (Hbind _ _ _ Hov) as [Hf | [t1 Hd]].
           -- rewrite (Hnd _ _ _ _ Hop) in Hf. discriminate.
-          -- exists t', ov; auto.
+          -- exists t1, ov; auto.
       + inv_pair Hs. split; [discriminate|]. intros t' o r [H|[]]; inversion H; subst. split; discriminate.
     - (* seg *)
       specialize (Hwf t). specialize (Hnp t).
       destruct (t_pc (st_thr st t)) eqn:Hpc0; cbn [seg] in Hs; cbn [pc_wf] in Hwf.
       + discriminate.
       + inv_pair Hs.
-        match goal with H : after_read _ _ _ _ _ ?e _ = (p', evs) |- _ =>
-          split; [intros; replace p' with (fst (after_read cfg t l n d e rest)) by (now rewrite H);
-                  apply after_read_pc
-                 | intros t' o r Hin; replace evs with (snd (after_read cfg t l n d e rest)) in Hin by (now rewrite H);
-                   apply after_read_evs in Hin; destruct Hin as [x ->]; apply found_ok] end.
+        use_outcome after_read_pc after_read_evs.
       + inv_pair Hs. split; [discriminate|]. intros t' o r [H|[]]; inversion H; subst. apply found_ok.
       + destruct (file_of cfg d n); [destruct (lockmap (st_sh st) d n)|]; inv_pair Hs; (split; [discriminate | intros ? ? ? []]).
-      + inv_pair Hs.
-        match goal with H : next_level _ _ _ ?e _ = (p', evs) |- _ =>
-          split; [intros; replace p' with (fst (next_level t l n e rest)) by (now rewrite H);
-                  apply next_level_pc
-                 | intros t' o r Hin; replace evs with (snd (next_level t l n e rest)) in Hin by (now rewrite H);
-                   apply next_level_evs in Hin; destruct Hin as [x ->]; apply found_ok] end.
+      + injection Hs as Hsh Hx. subst sh'.
+        assert (Hx' : next_level t l n RdHole rest = (p', evs)) by exact Hx. clear Hx.
+        use_outcome next_level_pc next_level_evs.
       + destruct (held (st_sh st) lk); inv_pair Hs. split; [discriminate | intros ? ? ? []].
       + destruct (get (st_sh st) d n); inv_pair Hs; (split; [discriminate | intros ? ? ? []]).
       + inv_pair Hs. split; [discriminate | intros ? ? ? []].
@@ -582,11 +582,7 @@ Proof.
           -- rewrite Hfile in Hf'. inversion Hf'; subst. rewrite veq_refl in Hveq. discriminate.
           -- rewrite (Hnd _ _ _ _ Hdef) in Hfile. discriminate.
       + destruct r as [e|]; [|exfalso; eapply Hnp; reflexivity]. inv_pair Hs.
-        match goal with H : next_level _ _ _ ?e _ = (p', evs) |- _ =>
-          split; [intros; replace p' with (fst (next_level t l n e rest)) by (now rewrite H);
-                  apply next_level_pc
-                 | intros t' o r Hin; replace evs with (snd (next_level t l n e rest)) in Hin by (now rewrite H);
-                   apply next_level_evs in Hin; destruct Hin as [x ->]; apply found_ok] end. }
+        use_outcome next_level_pc next_level_evs. }
   destruct Hnew as [Hp' Hevs].
   split; cbn [st_thr st_log].
   - intros t0. destruct (Nat.eq_dec t0 t) as [->|Hne].
